@@ -57,6 +57,9 @@ func (w *World) Decode(orig any, b []byte) (any, error) {
 		return w.Enc.DecodeWithHint(b, base.OperationFixedtreeHint)
 	case fixedtree.BaseNode:
 		return w.Enc.DecodeWithHint(b, base.StateFixedtreeHint)
+	case hint.Hinter:
+		// a registered type whose MarshalJSON does not emit "_hint": decode with its own hint
+		return w.Enc.DecodeWithHint(b, orig.(hint.Hinter).Hint())
 	}
 	return nil, fmt.Errorf("no decoder for %T (no _hint in %.60s)", orig, string(b))
 }
